@@ -133,7 +133,13 @@ pub fn program(ex: &Value, ey: &Value, mode: &str) -> String {
     let mut u = Uses::default();
     let (x, y) = (render_expr(ex, &mut u), render_expr(ey, &mut u));
     let pre = preamble(&u);
-    if mode == "vars" {
+    if mode == "params" {
+        // both sides reach the comparison through any-typed parameters: nothing is known when the body is checked
+        format!("{pre}x := {x}; y := {y}; f := (a: any, b: any) -> (bool, bool, int, bool) {{ m := match a {{ b => 1, => 0, }}; return (a == b, a != b, m, b == a) }}; f(x, y)")
+    } else if mode == "self" {
+        // ONE non-constant name compared with itself (reflexivity holds exactly for NaN-free contents)
+        format!("{pre}x := {x}; f := (a: any) -> (bool, bool, int, bool) {{ m := match a {{ a => 1, => 0, }}; return (a == a, a != a, m, a == a) }}; f(x)")
+    } else if mode == "vars" {
         format!("{pre}x := {x}; y := {y}; m := match x {{ y => 1, => 0, }}; (x == y, x != y, m, y == x)")
     } else {
         format!("{pre}m := match {x} {{ {y} => 1, => 0, }}; ({x} == {y}, {x} != {y}, m, {y} == {x})")
@@ -281,8 +287,13 @@ fn replay(dir: &str, tier: &str) -> Value {
                 for rot in rots {
                     let px = &psi[(i + j + rot) % psi.len()];
                     let py = &psj[(i + 2 * j + 1 + rot) % psj.len()];
-                    for mode in ["vars", "inline"] {
+                    for mode in ["vars", "inline", "params"] {
                         check_case(&mut cx, &interp, "contents", px, py, "id", eq, mode, i == nc / 2 && j == nc / 2 + 1);
+                    }
+                    if i == j {
+                        for p in psi {
+                            check_case(&mut cx, &interp, "contents", p, p, "id", eq, "self", false);
+                        }
                     }
                 }
                 // API route: `Variable == Variable` with different hidden element types on the two sides
